@@ -50,6 +50,8 @@ def plan(tier, seed):
         t.append(("random", cnt // 32, seed * 1000 + i))
     for i in range(16):
         t.append(("insitu", 12 if tier == "quick" else 120, seed * 1000 + i))
+    if tier == "thorough":
+        t.append(("repo-tests",))
     random.Random(seed).shuffle(t)
     return t
 
@@ -70,6 +72,21 @@ def run_matrix(p, A, f2):
 
 
 def work(task):
+    if task[0] == "repo-tests":
+        # the repository's own tests as one more workload, with the contracts attached
+        p = Partial()
+        r = contracts.run_repo_tests(('f2',), ['test_f2_algebra.py', 'test_find_local_clifford_layer.py', 'test_stabilizer.py', 'test_rotate_stabilizer_into_state.py'])
+        if r is None:
+            p.counters["repository tests under contracts: could not run"] += 1
+            return p
+        log, evals, status = r
+        p.evals += sum(v for k, v in evals.items() if "out-of-domain" not in k)
+        p.counters["repository tests under contracts: contract evaluations"] += sum(evals.values())
+        for v in log:
+            if v["contract"].startswith(('f2.',)):
+                p.violate("under-repo-tests " + v["contract"] + " " + v.get("tag", ""), v["what"] + " (while running the repository's own tests)", dict(v.get("case") or {}, repo_tests=True))
+        p.extra["contract_evals"] = __import__("collections").Counter({k: v for k, v in evals.items()})
+        return p
     import htstabilizer.f2_algebra as f2
     contracts.install("htstabilizer")
     contracts.take()
